@@ -65,17 +65,18 @@ def _alarm(signum, frame):
 
 class watchdog:
     """handle_notify and the tail of async_subscribe never yield to the loop, so a non-terminating one can only be
-    interrupted by a signal; 0.5 s per event is three orders of magnitude above the normal cost"""
+    interrupted by a signal; 0.5 s of CPU time per event is three orders of magnitude above the normal cost"""
 
     def __enter__(self):
         import signal
-        self.old = signal.signal(signal.SIGALRM, _alarm)
-        signal.setitimer(signal.ITIMER_REAL, 0.5)
+        # CPU time of this process, not wall-clock time: a descheduled process on a loaded machine must not look hung
+        self.old = signal.signal(signal.SIGVTALRM, _alarm)
+        signal.setitimer(signal.ITIMER_VIRTUAL, 0.5)
 
     def __exit__(self, *a):
         import signal
-        signal.setitimer(signal.ITIMER_REAL, 0)
-        signal.signal(signal.SIGALRM, self.old)
+        signal.setitimer(signal.ITIMER_VIRTUAL, 0)
+        signal.signal(signal.SIGVTALRM, self.old)
         return False
 
 
